@@ -11,6 +11,7 @@ import CtyModel.Lemmas.d02Quo
 import CtyModel.Lemmas.d02Reject
 import CtyModel.Lemmas.d02Coll
 import CtyModel.Lemmas.d02Mod
+import CtyModel.Lemmas.d02Has
 namespace CtyModel
 namespace C02
 open Num Value
@@ -415,6 +416,48 @@ theorem hasElement_true_iff_member (e : Ty) (hw : e.wf = true) (ids : List Int) 
     (Value.hasElement ⟨.set e, .sset ids vs⟩ ⟨e, x⟩ (some h) = .ok (boolVal true) → D02.Hit Value.equalsP e h x ids vs) ∧
     (Value.hasElement ⟨.set e, .sset ids vs⟩ ⟨e, x⟩ (some h) = .ok (boolVal false) → ¬ D02.Hit Value.equalsP e h x ids vs) :=
   ⟨fun hr => D02.hasElement_true_hit e ids vs ⟨e, x⟩ h hm hr, fun hr => D02.hasElement_false_no_hit e hw ids vs x h hm hk hr⟩
+
+/-- The full clause "HasElement agrees with a linear scan of the members using
+Equals" is FALSE of the code (`hasElement_linear_scan_counterexample`).  It holds
+under the side condition `D02.HashCoherent`: every member that Equals the needle
+sits in the bucket the needle hashes to (true of whole numbers, strings, bools;
+false for non-integer numbers that print alike at their own precisions but differ
+in their 10-digit texts). -/
+def HasElementIsLinearScan : Prop :=
+  ∀ (e : Ty) (ids : List Int) (vs : List Payload) (x : Payload) (h : Int), e.wf = true → e.plain = true →
+    (∀ p ∈ vs, D02.Good e p) → D02.Good e x →
+    Value.hasElement ⟨.set e, .sset ids vs⟩ ⟨e, x⟩ (some h) = .ok (boolVal ((ids.zip vs).any fun q => rawB e x q.2))
+
+theorem hasElement_eq_linear_scan_partial (e : Ty) (hw : e.wf = true) (hp : e.plain = true) (ids : List Int)
+    (vs : List Payload) (hg : ∀ p ∈ vs, D02.Good e p) (x : Payload) (hx : D02.Good e x) (h : Int)
+    (hc : D02.HashCoherent e h x ids vs) :
+    Value.hasElement ⟨.set e, .sset ids vs⟩ ⟨e, x⟩ (some h) = .ok (boolVal ((ids.zip vs).any fun q => rawB e x q.2)) :=
+  D02.hasElement_scan e hw hp ids vs hg x hx h hc
+
+/-- the recorded witness with the bucket ids the implementation computes:
+`SetVal([…, NumberFloatVal(3.9477794105)]).HasElement(MustParseNumberVal("3.9477794105"))` is
+False although the member Equals the needle. -/
+theorem hasElement_linear_scan_counterexample :
+    Value.equals ⟨.number, .n (.fin false 4444804470517179 (-50) 53)⟩
+      ⟨.number, .n (.fin false 6616383510720751409574419276066167347849274831266510936186703153532054316082981444465370061514054905547072918229708187613238190649929064032578605931325323 (-509) 512)⟩
+      = .ok (boolVal true) ∧
+    Value.hasElement ⟨.set .number, .sset [1243578146] [.n (.fin false 4444804470517179 (-50) 53)]⟩
+      ⟨.number, .n (.fin false 6616383510720751409574419276066167347849274831266510936186703153532054316082981444465370061514054905547072918229708187613238190649929064032578605931325323 (-509) 512)⟩
+      (some 1459007788) = .ok (boolVal false) := D02.hasElement_hash_counterexample
+
+theorem hasElementIsLinearScan_false : ¬ HasElementIsLinearScan := by
+  intro h
+  have h1 := h .number [1243578146] [.n (.fin false 4444804470517179 (-50) 53)]
+    (.n (.fin false 6616383510720751409574419276066167347849274831266510936186703153532054316082981444465370061514054905547072918229708187613238190649929064032578605931325323 (-509) 512))
+    1459007788 (by decide) (by decide)
+    (by intro p hp; simp only [List.mem_singleton] at hp; subst hp; exact ⟨by decide, by decide, by decide⟩)
+    ⟨by decide, by decide, by decide⟩
+  rw [hasElement_linear_scan_counterexample.2] at h1
+  have h2 : rawB .number (.n (.fin false 6616383510720751409574419276066167347849274831266510936186703153532054316082981444465370061514054905547072918229708187613238190649929064032578605931325323 (-509) 512))
+      (.n (.fin false 4444804470517179 (-50) 53)) = true := by
+    have : Num.rawEqual (.fin false 6616383510720751409574419276066167347849274831266510936186703153532054316082981444465370061514054905547072918229708187613238190649929064032578605931325323 (-509) 512) (.fin false 4444804470517179 (-50) 53) = true := by decide +kernel
+    simpa [rawB] using this
+  simp [h2, boolVal] at h1
 
 /-- `IndexOkIffHasIndex` restricted to lists and (well-shaped) tuples: for EVERY known,
 unmarked key that is not dynamically typed — whole, fractional, negative, huge,
